@@ -3,5 +3,8 @@ import SqlframeModel.Impl.C04
 namespace Sqlframe
 open Lean
 deriving instance FromJson, ToJson for Namer
+deriving instance FromJson, ToJson for Hint
+deriving instance FromJson, ToJson for HintMethod
+deriving instance FromJson, ToJson for Via
 deriving instance FromJson, ToJson for Call
 end Sqlframe
